@@ -11,6 +11,7 @@ import (
 	"reservoir/logging/early"
 	"reservoir/utils/assertedpath"
 	"reservoir/utils/bytesize"
+	"sync"
 )
 
 var (
@@ -21,10 +22,13 @@ var fileLog *fileLogger = nil // Current file logger instance if any
 var logLevel slog.LevelVar
 
 func OpenLogFileRead() (*os.File, error) {
-	if fileLog == nil {
+	rebuildMu.Lock()
+	current := fileLog
+	rebuildMu.Unlock()
+	if current == nil {
 		return nil, ErrNoLogFile // File logging is disabled (logging.file is empty) or not initialized
 	}
-	assertedPath, err := assertedpath.TryAssert(fileLog.Path())
+	assertedPath, err := assertedpath.TryAssert(current.Path())
 	if err != nil {
 		return nil, err
 	}
@@ -67,7 +71,15 @@ func SetLogLevel(level slog.Level) {
 	logLevel.Set(level)
 }
 
+// Serialises rebuilds of the logger. Every writer setting has its own change notification and
+// each of them rebuilds from the whole configuration: unserialised, a rebuild that read the
+// settings early could install its logger after one that read them later.
+var rebuildMu sync.Mutex
+
 func updateLogger(cfg *config.Config) io.Writer {
+	rebuildMu.Lock()
+	defer rebuildMu.Unlock()
+
 	slog.Info("Updating log writers...")
 
 	logToStdOut := cfg.Logging.ToStdout.Read()
